@@ -516,6 +516,27 @@ theorem C13_lbfgsb_not_worse_model [Zero α] (svc : (List α → α) → List α
     objective (lbfgsbSolve tovecF updateF svc objective init lb).1 ≤ objective init :=
   (C13_lbfgsb_not_worse tovecF updateF svc objective init lb (updateF_tovecF init hwf) hfeas hsvc).1
 
+/-- **The returned model is the optimiser's solution vector, decoded** — not whatever the last
+objective evaluation left in the model object that `lbfgsb_func_grad` updates in place.  First
+part: the wrapper returns `update init x` and `f` for the pair `(x, f)` the optimiser reports.
+Second part (with the modelled `tovec` / `update`): whatever points the optimiser evaluated, in
+whatever order — in particular when the last evaluated point is a rejected line-search trial —
+the result is the same as if nothing had been written into the model in between. -/
+theorem C13_lbfgsb_returns_service_point {β : Type} [Zero β] :
+    (∀ (tovec : Ktensor β → List β) (update : Ktensor β → List β → Ktensor β)
+        (svc : (List β → β) → List β → Option β → List β × β) (objective : Ktensor β → β)
+        (init : Ktensor β) (lb : Option β),
+      lbfgsbSolve tovec update svc objective init lb =
+        (update init (svc (fun v => objective (update init v)) (tovec init) lb).1,
+         (svc (fun v => objective (update init v)) (tovec init) lb).2)) ∧
+    (∀ (svc : (List β → β) → List β → Option β → (List β × β) × List (List β))
+        (objective : Ktensor β → β) (init : Ktensor β) (lb : Option β),
+      lbfgsbSolveInPlace tovecF updateF svc objective init lb =
+        lbfgsbSolve tovecF updateF (fun f x l => (svc f x l).1) objective init lb) := by
+  refine ⟨fun _ _ _ _ _ _ => rfl, fun svc objective init lb => ?_⟩
+  unfold lbfgsbSolveInPlace lbfgsbSolve
+  simp only [updateF_foldl]
+
 /-- **Reusable, L-BFGS-B.**  A solve leaves the options stored in the `LBFGSB` object exactly
 as they were (in particular no size-dependent tolerance of this problem is written back), and
 its result is what the bare wrapper computes from these options, the arguments and the
